@@ -994,7 +994,7 @@ class ArmV6:
         lookup_finished = True
         output_address = 0b0000000000000000000000000000000000000000
         attrs = 0b0000000000000
-        while lookup_finished:
+        while True:
             lookup_finished = True
             block_translate = False
             offset = 9 * current_level
@@ -1066,6 +1066,8 @@ class ArmV6:
                         attrs = set_bit_at(attrs, 3, 1)
             else:
                 current_level += 1
+            if lookup_finished:
+                break
 
         if bit_at(attrs, 8) == 0:
             taketohypmode = self.registers.current_mode_is_hyp() or not stage1
